@@ -17,6 +17,23 @@ VALS = ["(als nee { 1 })", "ja", "0", "-1", "1.5", "\"z\"", "\"\"", "\"lang\"", 
 
 
 def run(ctx, log):
+    far = []
+    for base, el in (("[10, 20, 30]", "i10"), ("\"abc\"", "S97")):
+        for idx in (2147483647, 2147483648, 2147483649, 4294967295, 4294967296, 4294967297, 4294967298, 1099511627776, 1152921504606846975):
+            for sign in ("", "0 - "):
+                far.append(("stel a = %s; a[%s%d]" % (base, sign, idx), "ERR Index"))
+                far.append(("stel a = %s; stel b = a; a[%s%d] = %s; b" % (base, sign, idx, "7" if base.startswith("[") else "\"z\""), "ERR Index"))
+                far.append(("functie f(s, i) { s[i] } f(%s, %s%d)" % (base, sign, idx), "ERR Index"))
+    for src, exp in [("stel a = [1, 2, 3]; a[7]; print(\"na\"); 1", "ERR Index"), ("stel a = [1, 2, 3]; stel i = 0; zolang i < 9 { a[i]; i += 1 } i", "ERR Index"), ("functie f(a, i) { a[i]; 2 } f([1], \"x\")", "ERR Type"),
+                     ("stel a = [1, 2, 3]; a[-4]; 0", "ERR Index"), ("stel s = \"ab\"; s[2]; s[0]; 0", "ERR Index"), ("stel a = [1, 2, 3]; a[2]; a[0]; 5", "OK i5"), ("functie f(a) { a[0]; a[1]; a[9]; 1 } f([1, 2])", "ERR Index"),
+                     ("stel a = [1]; als ja { a[3]; 1 } anders { 2 }", "ERR Index"), ("stel a = [[1]]; stel b = a[0]; b[1]; 0", "ERR Index")]:
+        far.append((src, exp))
+    fo = vlib.nlh("eval", ["5000 " + vlib.hexs(x) for x, _ in far], tag="c13far")
+    for (x, e), o in zip(far, fo):
+        ctx.seen(("far-index", x))
+        ctx.count("far-indices-and-unused-reads")
+        if progcheck.head(o) != e or (e.startswith("ERR") and "OUT -" not in o):
+            ctx.violate("an index outside the sequence (or a read whose value is not used) did not raise the index / type error", source=x, observed=o[:200], expected=e)
     # the same small programs at every size around the widths the implementation encodes things in (closed-form results)
     progcheck.run_scale(ctx, log, ['rtnest', 'objects', 'constants', 'cyclic', 'alias', 'literal', 'text', 'csc'])
     progcheck.run_scale_wrapped(ctx, log, ['alias', 'cyclic', 'literal', 'objects', 'temporaries', 'rtnest', 'csc', 'constants', 'locals'])
